@@ -18,7 +18,7 @@ HARNESS = os.path.join(HARNESS_DIR, "target", "release", "xmlrs-verif-harness")
 EVIDENCE = os.path.join(VERIF, "evidence")
 REPLAYS = os.path.join(VERIF, "replays")
 FINDINGS = os.path.join(VERIF, "known_findings.jsonl")
-REPO = "/repo"
+REPO = os.environ.get("VERIF_REPO", "/repo")   # development aid: tools/mutcheck.sh points it at a scratch copy
 
 
 class ToolError(Exception):
